@@ -72,17 +72,18 @@ Node(op, src, args, qmd, ds) == [op |-> op, src |-> src, args |-> args, qmd |-> 
 
 (* the AST a heap node stands for *)
 RECURSIVE View(_, _)
-View(h, n) == IF h[n].op = "EventDataset" THEN Fn("EventDataset", <<>>)
+View(h, n) == IF h[n].op = "EventDataset" THEN Fn("EventDataset", h[n].args)   \* (a root node may have arguments)
+              ELSE IF h[n].op = "NameRoot" THEN Name("e")      \* a stream over a bare name (no dataset, no executor)
               ELSE Fn(h[n].op, <<View(h, h[n].src)>> \o h[n].args)
 
 (* dataset object at the root: walk args[0] until the node carrying the executor *)
 RECURSIVE RootDs(_, _)
-RootDs(h, n) == IF h[n].op = "EventDataset" THEN h[n].ds ELSE RootDs(h, h[n].src)
+RootDs(h, n) == IF h[n].op = "EventDataset" THEN h[n].ds ELSE IF h[n].op = "NameRoot" THEN 0 ELSE RootDs(h, h[n].src)
 
 (* lookup_query_metadata: top-down, stop at the first node defining the key *)
 RECURSIVE LookupQ(_, _, _)
 LookupQ(h, n, k) == IF h[n].qmd[k] # 0 THEN h[n].qmd[k]
-                    ELSE IF h[n].op = "EventDataset" THEN 0
+                    ELSE IF h[n].op \in {"EventDataset", "NameRoot"} THEN 0
                     ELSE LookupQ(h, h[n].src, k)
 
 StreamType(op, lam, inType) ==
@@ -118,6 +119,30 @@ NewDataset(typed) ==
           /\ hist' = Append(hist, Act("NewDataset", 0, ty, Absent, "", 0, "", 0))
     /\ UNCHANGED <<pending, execLog, delivered, ncalls>>
 
+(* ObjectStream(Name("e")): a stream whose root is a bare name (used for collection-valued items and in the  *)
+(* library's own tests); query metadata may be attached to it directly; it has no executor of its own       *)
+NewNameRoot ==
+    /\ Room /\ Focus = "qmd" /\ ~ChainOnly
+    /\ \A i \in 1..Len(heap) : heap[i].op # "NameRoot"
+    /\ LET n == Len(heap) + 1
+       IN /\ heap' = Append(heap, Node("NameRoot", 0, <<>>, NoQmd, 0))
+          /\ streams' = Append(streams, NewStream(n, "Any", Name("e"), 0, NoQmd))
+          /\ hist' = Append(hist, Act("NewNameRoot", 0, "Any", Absent, "", 0, "", 0))
+    /\ UNCHANGED <<pending, execLog, delivered, ncalls>>
+
+(* a dataset DEFINED by a query on another dataset ("skim"): its root node carries that query as its first *)
+(* argument.  Executions on it go to ITS executor: the walk to the root stops at the first root node.      *)
+NewSkim(s) ==
+    /\ Room /\ On({"exec"}) /\ ~ChainOnly
+    /\ Cardinality({i \in 1..Len(heap) : heap[i].op = "EventDataset"}) < NDatasets
+    /\ LET d == Cardinality({i \in 1..Len(heap) : heap[i].op = "EventDataset"}) + 1
+           n == Len(heap) + 1
+           p == streams[s]
+       IN /\ heap' = Append(heap, Node("EventDataset", 0, <<View(heap, p.root)>>, NoQmd, d))
+          /\ streams' = Append(streams, NewStream(n, "Any", Fn("EventDataset", <<p.gview>>), d, NoQmd))
+          /\ hist' = Append(hist, Act("NewSkim", s, "Any", Absent, "", 0, "", 0))
+    /\ UNCHANGED <<pending, execLog, delivered, ncalls>>
+
 (* Select / Where / SelectMany: a new node whose source IS the parent's node *)
 Derive(s, op, lam) ==
     /\ Room /\ On({"imm", "exec", "qmd"}) /\ Newest(s)
@@ -130,7 +155,7 @@ Derive(s, op, lam) ==
     /\ UNCHANGED <<pending, execLog, delivered, ncalls>>
 
 MetaDataAct(s, md) ==
-    /\ Room /\ On({"imm", "exec"}) /\ Newest(s)
+    /\ Room /\ On({"imm", "exec", "qmd"}) /\ Newest(s)
     /\ LET p == streams[s]
            n == Len(heap) + 1
        IN /\ heap' = Append(heap, Node("MetaData", p.root, <<md>>, NoQmd, 0))
@@ -192,15 +217,16 @@ Terminal(s) ==
 RECURSIVE SkipEmpty(_, _)
 SkipEmpty(h, n) == IF h[n].op = "MetaData" /\ h[n].args = <<MDEmpty>> THEN SkipEmpty(h, h[n].src) ELSE n
 RECURSIVE Reach(_, _)
-Reach(h, n) == {n} \cup (IF h[n].op = "EventDataset" THEN {} ELSE Reach(h, h[n].src))
+Reach(h, n) == {n} \cup (IF h[n].op \in {"EventDataset", "NameRoot"} THEN {} ELSE Reach(h, h[n].src))
 CleanHeap(h, r) == [i \in 1..Len(h) |->
-                      IF i \in Reach(h, r) /\ h[i].op # "EventDataset"
+                      IF i \in Reach(h, r) /\ h[i].op \notin {"EventDataset", "NameRoot"}
                       THEN [h[i] EXCEPT !.src = SkipEmpty(h, h[i].src)] ELSE h[i]]
 
 (* value_async(executor = override?, title): executor found, AST cleaned, call started *)
 ValueStart(s, title, ovr) ==
     /\ Len(hist) < MaxSteps /\ On({"exec", "imm", "qmd"})
     /\ Len(pending) < MaxPending
+    /\ (ovr \/ RootDs(heap, streams[s].root) # 0)                \* (a bare-name root has no executor of its own)
     /\ LET p == streams[s]
            c == ncalls + 1
            target == IF ovr THEN 0 ELSE RootDs(heap, p.root)      \* 0 = the override executor
@@ -216,6 +242,7 @@ ValueStart(s, title, ovr) ==
 (* value(): the synchronous wrapper -- start, executor returns / raises at once, outcome delivered, one step *)
 ValueSync(s, title, kind, val) ==
     /\ Len(hist) < MaxSteps /\ On({"exec"})
+    /\ RootDs(heap, streams[s].root) # 0
     /\ LET p == streams[s]
            c == ncalls + 1
            ast == RemoveEmptyMD(View(heap, p.root))
@@ -238,7 +265,9 @@ Complete(i, kind, val) ==
 
 Next ==
     \/ \E typed \in BOOLEAN : NewDataset(typed)
+    \/ NewNameRoot
     \/ \E s \in 1..NStreams :
+          \/ NewSkim(s)
           \/ \E d \in DeriveOps : Derive(s, d[1], d[2])
           \/ \E md \in MDs : MetaDataAct(s, md)
           \/ \E k \in QKeys, v \in QVals : QMetaDataAct(s, k, v)
